@@ -33,6 +33,32 @@ theorem commit_full (s : DbfsSt) (ps : List (DPath × Key)) (hinv : DbfsFullInv 
   obtain ⟨h1, h2, _, _, h5⟩ := dbfs_sync_full ps s hinv hst
   exact ⟨h1, h2, h5⟩
 
+/-- no commit, of any type, successful or not, ever touches the content-addressed area: the blobs and their
+protocol records (legacy ones included) are what they were -/
+theorem commit_keeps_blobs (ct : CommitType) : ∀ (ps : List (DPath × Key)) (s : DbfsSt),
+    (s.syncAll ct ps).1.blobs = s.blobs ∧ (s.syncAll ct ps).1.metas = s.metas
+  | [], s => by simp [DbfsSt.syncAll]
+  | (p, k) :: ps, s => by
+    cases ct with
+    | noCommit => simp [DbfsSt.syncAll]
+    | linkOnly =>
+      simp only [DbfsSt.syncAll]
+      split
+      · exact commit_keeps_blobs .linkOnly ps s
+      · exact commit_keeps_blobs .linkOnly ps _
+    | full =>
+      simp only [DbfsSt.syncAll]
+      split
+      · exact commit_keeps_blobs .full ps s
+      · split
+        · exact commit_keeps_blobs .full ps _
+        · exact ⟨rfl, rfl⟩
+
+/-- a failed `full` commit (a blob is missing) has written only complete entries: the copy invariant still holds -/
+theorem failed_full_commit_keeps_inv : ∀ (ps : List (DPath × Key)) (s : DbfsSt), DbfsFullInv s →
+    (∀ pk ∈ ps, (aget s.metas pk.2).isSome ∧ (aget s.blobs pk.2).isSome) → DbfsFullInv (s.syncAll .full ps).1 :=
+  fun ps s hinv hst => (dbfs_sync_full ps s hinv hst).2.1
+
 /-- a path committed by the last commit resolves to its key (`load` works whenever the record exists) -/
 theorem committed_path_resolves (s : DbfsSt) (ps : List (DPath × Key)) (p : DPath) (k : Key)
     (h : lastKey ps p = some k) :
